@@ -44,6 +44,33 @@ def install_stubs(I):
 def url_of(name): return Agg('Url', [py_str(name)])
 
 
+def lsp_rename(D, fn, line, ch, new_name):
+    """the real vhdl_ls binary over stdio on a scratch copy of the design: (prepareRename result, {file: sorted edit ranges})"""
+    import tempfile, shutil
+    from .c14 import LspClient, lsp_binary
+    os.makedirs(os.path.join(build.BUILD, 'scratch'), exist_ok=True)
+    root = tempfile.mkdtemp(prefix='c09-', dir=os.path.join(build.BUILD, 'scratch'))
+    try:
+        libs = {}
+        for lib, f, t in D['files']:
+            libs.setdefault(lib, []).append(f)
+            with open(os.path.join(root, f), 'w', encoding='latin-1') as fh: fh.write(t)
+        with open(os.path.join(root, 'vhdl_ls.toml'), 'w') as fh:
+            fh.write('[libraries]\n' + ''.join(f'{k}.files = [{", ".join(repr(x) for x in v)}]\n' for k, v in libs.items()))
+        c = LspClient(lsp_binary(), root)
+        try:
+            doc = {'textDocument': {'uri': 'file://' + os.path.join(root, fn)}, 'position': {'line': line, 'character': ch}}
+            prep = c.request('textDocument/prepareRename', doc).get('result')
+            res = c.request('textDocument/rename', dict(doc, newName=new_name)).get('result')
+        finally: c.stop()
+        edits = {}
+        for uri, tes in ((res or {}).get('changes') or {}).items():
+            edits['/p/' + uri.rsplit('/', 1)[-1] if uri.startswith('file://' + root) else uri] = sorted((e['range']['start']['line'], e['range']['start']['character'], e['range']['end']['line'], e['range']['end']['character']) for e in tes)
+        return prep, edits
+    finally:
+        shutil.rmtree(root, ignore_errors=True)
+
+
 class Rename(DesignPart):
     def __init__(self, name, designs, stride=1, offset=0, required=(), time_cap=None):
         self.name, self.designs, self.stride, self.offset = name, designs, stride, offset
@@ -183,36 +210,30 @@ class Rename(DesignPart):
         return h
 
     def replay_case(self, chk, w, v):
-        # rename is a function of find_declaration and find_all_references: replay those two natively at the occurrence and re-evaluate the edit oracle
+        # end to end: the real vhdl_ls binary answers the rename; its edits are applied and both projects analysed natively
         self.bases(chk)
-        ctx = Ctx(); ctx.step_limit = 10 ** 9
-        try:
-            self.run(chk, ctx, ConcInputs(ctx, w), verify=True)
-            return 'the counterexample does not replay in the interpreter with concrete inputs'
-        except Violation as vv:
-            kind = vv.kind
         D = self.designs[w.get('design', 0) % len(self.designs)]
         fn = D['files'][w.get('file', 0) % len(D['files'])][1]
-        m = re.search(r'occurrence \((\d+), (\d+), (\d+), (\d+)\)', str(v.get('msg', '') if isinstance(v, dict) else v)) or re.search(r'at \((\d+), (\d+), (\d+), (\d+)\)', str(v.get('msg', '') if isinstance(v, dict) else v))
-        if not m: return 'no occurrence in the message: ' + str(v.get('msg', '') if isinstance(v, dict) else v)[:700]
-        line, col = int(m.group(1)), int(m.group(2))
-        case = self.native_case(D, {'file': fn, 'line': line, 'character': max(col, w.get('character', col))})
-        out = chk.native.run('query', [case])[0]
-        if 'panic' in out: return True
-        if 'references' not in out: return f'native replay failed: {out}'
-        n = CursorQueries.norm_native(out)
-        if n['declaration'] is None: return kind in ('refused', 'no-edit')
-        # apply the native reference list as edits and analyse natively
-        old = n['declaration']['name']
-        new = ('z' + 'q' * (len(old) - 2) + chr(w.get('new_last', 122))) if len(old) >= 2 else chr(w.get('new_last', 122))
-        texts = {f: t.split('\n') for _, f, t in D['files']}
-        for r in sorted(n['references'], key=lambda r: (r[1], r[2]), reverse=True):
-            f = r[0][3:]
-            if f not in texts: return True
-            ln = texts[f][r[1]]
-            if ln[r[2]:r[4]].lower() != old.lower(): return True
-            texts[f][r[1]] = ln[:r[2]] + new + ln[r[4]:]
-        D2 = dict(name='renamed', files=[(lib, f, '\n'.join(texts[f])) for lib, f, _ in D['files']])
+        msg = str(v.get('msg', '') if isinstance(v, dict) else v)
+        m = re.search(r'occurrence \((\d+), (\d+), (\d+), (\d+)\)', msg) or re.search(r'at \((\d+), (\d+), (\d+), (\d+)\)', msg) or re.search(r'\((\d+), (\d+), (\d+), (\d+)\)', msg)
+        if not m: return 'no occurrence in the message: ' + msg[:700]
+        line, c0, c1 = int(m.group(1)), int(m.group(2)), int(m.group(4))
+        ch = w.get('character', c0); ch = ch if c0 <= ch <= c1 else c0
+        old_len = c1 - c0
+        new = ('z' + 'q' * (old_len - 2) + chr(w.get('new_last', 122))) if old_len >= 2 else chr(w.get('new_last', 122))
+        prep, edits = lsp_rename(D, fn, line, ch, new)
+        kind = v.get('kind') if isinstance(v, dict) else getattr(v, 'kind', None)
+        if kind == 'not-refused': return prep is not None
+        if kind == 'refused': return prep is None
+        texts = {'/p/' + f: t.split('\n') for _, f, t in D['files']}
+        olds = set()
+        for path, rs in edits.items():
+            if path not in texts: return True
+            for r in sorted(rs, reverse=True):
+                ln = texts[path][r[0]]; olds.add(ln[r[1]:r[3]].lower())
+                texts[path][r[0]] = ln[:r[1]] + new + ln[r[3]:]
+        if len(olds) > 1: return True                      # text other than one identifier was replaced
+        D2 = dict(name='renamed', files=[(lib, f, '\n'.join(texts['/p/' + f])) for lib, f, _ in D['files']])
         a, b = chk.native.run('analyse', [self.native_case(D, {}), self.native_case(D2, {})])
         if 'panic' in b: return True
         if 'diagnostics' not in a or 'diagnostics' not in b: return f'native replay failed: {b}'
@@ -242,13 +263,10 @@ class Rename(DesignPart):
                 fi = w['file'] % len(D['files']); fname = '/p/' + D['files'][fi][1]
                 ers = pr.references(ctx, fname)[self.offset % self.stride::self.stride]
                 rr = obs_show(ers[w['occurrence'] % len(ers)][0])
-                out = chk.native.run('query', [self.native_case(D, {'file': D['files'][fi][1], 'line': rr[0], 'character': rr[1]})])[0]
+                prep, theirs = lsp_rename(D, D['files'][fi][1], rr[0], rr[1], ('z' + 'q' * (len(old) - 2) + 'x') if len(old) >= 2 else 'x')
                 n += 1
-                if 'references' not in out: bad.append({'case': w, 'native': out}); continue
-                theirs = {}
-                for p in CursorQueries.norm_native(out)['references']: theirs.setdefault(p[0], []).append(tuple(p[1:]))
-                theirs = {k: sorted(v) for k, v in theirs.items()}
-                if {k: [tuple(x) for x in v] for k, v in mine.items()} != theirs: bad.append({'case': w, 'interpreter': {k: list(v) for k, v in mine.items()}, 'native': {k: list(v) for k, v in theirs.items()}})
+                if {k: [tuple(x) for x in v] for k, v in mine.items()} != {k: [tuple(x) for x in v] for k, v in theirs.items()}:
+                    bad.append({'case': w, 'interpreter': {k: list(v) for k, v in mine.items()}, 'vhdl_ls over stdio': {k: list(v) for k, v in theirs.items()}})
         return n, bad
 
 
